@@ -1,5 +1,6 @@
 import STProofs.PPolyLookup
 import STProofs.PPolyRoutes
+import STProofs.PPolyCacheAny
 import STProofs.PPolyDeriv
 import STProofs.Trajectory
 /-! # C03 — lookup is the half-open-interval piece, clamped; the hint never matters; caches never change a value;
